@@ -78,7 +78,7 @@ Qed.
 
 (* ---------- QcowInspector.check_unknown_features ---------- *)
 Lemma qcow_feature_loop_equiv hdr version ver feats : forall k i, i + N.of_nat k = QCOW_I_FEATURES_LEN ->
-  gen_qcow_check_unknown_features_loop1 k (Z.of_N i) (Z.of_N QCOW_I_FEATURES_LEN) hdr version ver feats (Z.of_N QCOW_I_FEATURES_MAX_BIT / 8)
+  gen_qcow_check_unknown_features_loop1 k (Z.of_N i) (Z.of_N QCOW_I_FEATURES_LEN) hdr feats (Z.of_N QCOW_I_FEATURES_MAX_BIT / 8) ver version
   = qcow_feature_loop k i feats.
 Proof.
   induction k as [|k IH]; intros i Hk; cbn [gen_qcow_check_unknown_features_loop1 qcow_feature_loop]; [reflexivity|].
@@ -118,11 +118,11 @@ Proof.
 Qed.
 
 (* ---------- GPTInspector.check_mbr_partitions ---------- *)
-Definition resVF (r : res (list N * bool)) : res (list Z * bool) :=
-  match r with Ok (v, f) => Ok (map Z.of_N v, f) | Exn e => Exn e end.
+Definition resVF (r : res (list N * bool)) : res (bool * list Z) :=
+  match r with Ok (v, f) => Ok (f, map Z.of_N v) | Exn e => Exn e end.
 
 Lemma gpt_pte_loop_equiv mbr : forall k i valid found,
-  gen_gpt_check_mbr_partitions_loop1 k (Z.of_N i) 4 mbr (map Z.of_N valid) found
+  gen_gpt_check_mbr_partitions_loop1 k (Z.of_N i) 4 mbr found (map Z.of_N valid)
   = resVF (gpt_pte_loop k i mbr valid found).
 Proof.
   induction k as [|k IH]; intros i valid found; cbn [gen_gpt_check_mbr_partitions_loop1 gpt_pte_loop resVF]; [reflexivity|].
@@ -213,8 +213,8 @@ Proof.
   destruct (vmdk_parse_sparse s R_header 0) as [[[[[hs hv] hds] hdn] hg]|e]; cbn [res5 bind]; [|reflexivity].
   destruct (vmdk_parse_sparse s R_footer VMDK_FT_HDR_OFF) as [[[[[fs fv] fds] fdn] fg]|e]; cbn [res5 bind]; [|reflexivity].
   rewrite !eqbZ_N. unfold get_region. rewrite Hf. cbn [bind].
-  destruct (negb (beq hs fs)); [reflexivity|]. destruct (negb (hv =? fv)); [reflexivity|].
-  destruct (negb (hds =? fds) || negb (hdn =? fdn)); [reflexivity|]. destruct (fg =? VMDK_GD_AT_END); [reflexivity|].
+  (* the four header/footer comparisons: whatever their order in the source, only their conjunction matters *)
+  destruct (beq hs fs), (hv =? fv), (hds =? fds), (hdn =? fdn), (fg =? VMDK_GD_AT_END); cbn [negb orb]; try reflexivity.
   rewrite brepeat_pad. set (pad := repeatN _ _).
   change 512%Z with (Z.of_N VMDK_FT_FIRST) at 1. rewrite zslice_ntake.
   replace (- (512))%Z with (- Z.of_N VMDK_FT_LAST)%Z by reflexivity. rewrite zslice_nlast by reflexivity.
@@ -222,10 +222,10 @@ Proof.
   destruct (unpack sf_vmdk_marker (ntake VMDK_FT_FIRST (r_data f))) as [m1|e]; cbn [bind]; [|reflexivity].
   rewrite ?eqbZ_N. rewrite !eqbZ_lit by lia. cbn [Z.to_N].
   change sf_vmdk_marker2 with sf_vmdk_marker.
-  destruct (negb (sint sf_vmdk_marker 1 m1 =? 0) || negb (sint sf_vmdk_marker 2 m1 =? VMDK_MARKER_FOOTER) || negb (beq (sraw sf_vmdk_marker 3 m1) pad)); [reflexivity|].
+  destruct (sint sf_vmdk_marker 1 m1 =? 0), (sint sf_vmdk_marker 2 m1 =? VMDK_MARKER_FOOTER), (beq (sraw sf_vmdk_marker 3 m1) pad); cbn [negb orb]; try reflexivity.
   destruct (unpack sf_vmdk_marker (nlast VMDK_FT_LAST (r_data f))) as [m2|e]; cbn [bind]; [|reflexivity].
   rewrite ?eqbZ_N. rewrite !eqbZ_lit by lia. cbn [Z.to_N].
-  destruct (negb (sint sf_vmdk_marker 0 m2 =? 0) || negb (sint sf_vmdk_marker 1 m2 =? 0) || negb (sint sf_vmdk_marker 2 m2 =? VMDK_MARKER_EOS) || negb (beq (sraw sf_vmdk_marker 3 m2) pad)); reflexivity.
+  destruct (sint sf_vmdk_marker 0 m2 =? 0), (sint sf_vmdk_marker 1 m2 =? 0), (sint sf_vmdk_marker 2 m2 =? VMDK_MARKER_EOS), (beq (sraw sf_vmdk_marker 3 m2) pad); reflexivity.
 Qed.
 
 (* ---------- VMDKInspector.check_descriptor ---------- *)
@@ -233,11 +233,11 @@ Definition is_ddb (c : lclass) : bool := match c with L_ddb => true | _ => false
 Definition is_field (c : lclass) : bool := match c with L_field => true | _ => false end.
 
 Lemma check_descriptor_loop1_equiv dt ty : forall lines ddb hf ext,
-  gen_vmdk_check_descriptor_loop1 lines dt ty VMDK_EXTENT_ACCESS ddb hf ext =
+  gen_vmdk_check_descriptor_loop1 lines dt VMDK_EXTENT_ACCESS ty ddb ext hf =
   if existsb (fun l => is_bad (classify_line l)) lines then Exn SafetyViolation
   else Ok (ddb ++ filter (fun l => is_ddb (classify_line l)) lines,
-           hf ++ filter (fun l => is_field (classify_line l)) lines,
-           ext ++ filter (fun l => is_extent (classify_line l)) lines).
+           ext ++ filter (fun l => is_extent (classify_line l)) lines,
+           hf ++ filter (fun l => is_field (classify_line l)) lines).
 Proof.
   induction lines as [|l lines IH]; intros ddb hf ext; cbn [gen_vmdk_check_descriptor_loop1 existsb filter].
   - rewrite !app_nil_r. reflexivity.
@@ -261,7 +261,7 @@ Proof.
 Qed.
 
 Lemma check_descriptor_loop2_equiv dt ty ea hf ext0 ddb : forall exts,
-  gen_vmdk_check_descriptor_loop2 exts dt ty ea hf ext0 ddb =
+  gen_vmdk_check_descriptor_loop2 exts ddb dt ea ext0 hf ty =
   if existsb (memN 47%N) exts then Exn SafetyViolation else Ok tt.
 Proof.
   induction exts as [|e exts IH]; cbn [gen_vmdk_check_descriptor_loop2 existsb]; [reflexivity|].
